@@ -129,7 +129,6 @@ def run(ctx):
     vt = ctx.anchor(F.method, "RaftMembership", "voters")
     if vt:
         tests = role_tests(F, vt.id, "NodeMeta", "status", r"NodeStatus::\w+(::|$)")
-        names = sorted(set())
         per = {}
         for (tb_, tbi, op) in tests:
             for st in tb_.blocks[tbi]["st"]:
